@@ -180,10 +180,12 @@ def numeric(cls):
 
     setattr(cls, "__hash__", __hash__)
 
-    def __str__(self):
-        return str(int(self))
+    if "__str__" not in cls.__dict__:
 
-    setattr(cls, "__str__", __str__)
+        def __str__(self):
+            return str(int(self))
+
+        setattr(cls, "__str__", __str__)
 
     def __repr__(self):
         return f"{type(self).__name__}({str(self)})"
